@@ -267,6 +267,17 @@ fn uniqueness(views: &BTreeMap<String, Json>) -> Vec<(String, String)> {
     out
 }
 
+/// The view without the members a commit stamps on every row it writes.
+fn strip_stamp(view: &Json) -> Json {
+    let mut view = view.clone();
+    if let Some(system) = view.get_mut("_system").and_then(Json::as_object_mut) {
+        for key in ["version", "updated_at", "updated_tx", "space_seq", "origin"] {
+            system.remove(key);
+        }
+    }
+    view
+}
+
 fn journal_rows(d: &Dump) -> Vec<Json> {
     d.get("HISTORY SPACE").and_then(|a| a["ok"].as_array().cloned()).unwrap_or_default()
 }
@@ -372,6 +383,16 @@ fn check_step(
                     }
                     Some(old) if old != view => {
                         let was = old["_system"]["version"].as_u64().unwrap_or(0);
+                        // An element whose every member outside the commit
+                        // stamp is unchanged was not changed: it keeps its version.
+                        if strip_stamp(old) == strip_stamp(view) && version != was {
+                            violate(
+                                format!("C17|version-burned-without-change|{}", tpl.shape),
+                                format!("{id} is identical before and after except for its commit stamp, yet went from version {was} to {version}"),
+                                json!({"before": old, "after": view}),
+                            );
+                            continue;
+                        }
                         if version != was + 1 {
                             violate(
                                 format!("C17|version-not-plus-one|{}", tpl.shape),
